@@ -42,7 +42,7 @@ gensalt_sha_rn (char tag, size_t maxsalt, unsigned long defcount,
   if (count != defcount)
     {
       output_len += 9; /* rounds=1$ */
-      for (unsigned long ceiling = 10; ceiling < count; ceiling *= 10)
+      for (unsigned long ceiling = 10; ceiling <= count; ceiling *= 10)
         output_len += 1;
     }
   if (output_size < output_len)
@@ -64,10 +64,10 @@ gensalt_sha_rn (char tag, size_t maxsalt, unsigned long defcount,
                                  "$%c$rounds=%lu$", tag, count);
 
   /* The length calculation above should ensure that this is always true.  */
-  assert (written + 5 < output_size);
+  assert (written + 5 <= output_size);
 
   size_t used_rbytes = 0;
-  while (written + 5 < output_size &&
+  while (written + 5 <= output_size &&
          used_rbytes + 3 < nrbytes &&
          (used_rbytes * 4 / 3) < maxsalt)
     {
